@@ -9,4 +9,5 @@ def cases(seed, tier):
     out += [case_joint(PROPERTY, *s, tag="/pdiag") for s in pdiag_grid(seed, "C07", tier)]
     out += [case_joint(PROPERTY, *s, tag="/upd") for s in upd_grid(seed, "C07", tier)]
     out += [case_joint(PROPERTY, *s, tag=t) for s, t in ctor_grid(seed, "C07", tier)]
+    out += [case_joint(PROPERTY, *s, tag="/hd") for s in hd_grid(seed, "C07", tier)]
     return seeded(out, seed)
